@@ -381,6 +381,9 @@ func shoelace(ps []orb.Point) (sign int, robust bool, distinct int) {
 	if n < 3 {
 		return 0, false, distinct
 	}
+	if sg, rb, ok := shoelaceInt(ps); ok {
+		return sg, rb, distinct
+	}
 	emin := 0
 	first := true
 	for _, p := range ps {
@@ -418,6 +421,39 @@ func shoelace(ps []orb.Point) (sign int, robust bool, distinct int) {
 	lhs := new(big.Int).Mul(absA, big.NewInt(1000000000))
 	robust = lhs.Cmp(sabs) > 0 && absA.BitLen()+2*emin > -990
 	return sign, robust, distinct
+}
+
+// shoelaceInt is the exact evaluation in int64 for lists of up to 4096
+// vertices whose coordinates are multiples of 1/2 with |v| <= 2^19 (doubled
+// coordinates < 2^21, differences < 2^22, products < 2^44, sums < 2^58).
+func shoelaceInt(ps []orb.Point) (sign int, robust bool, ok bool) {
+	n := len(ps)
+	if n > 4096 || !halfLattice(ps) {
+		return 0, false, false
+	}
+	ox, oy := int64(ps[0][0]*2), int64(ps[0][1]*2)
+	var area, sabs int64
+	abs := func(v int64) int64 {
+		if v < 0 {
+			return -v
+		}
+		return v
+	}
+	for i := 0; i < n; i++ {
+		j := (i + 1) % n
+		xi, yi := int64(ps[i][0]*2)-ox, int64(ps[i][1]*2)-oy
+		xj, yj := int64(ps[j][0]*2)-ox, int64(ps[j][1]*2)-oy
+		t1, t2 := xi*yj, xj*yi
+		area += t1 - t2
+		sabs += abs(t1) + abs(t2)
+	}
+	switch {
+	case area > 0:
+		sign = 1
+	case area < 0:
+		sign = -1
+	}
+	return sign, float64(abs(area))*1e9 > float64(sabs), true
 }
 
 // halfLattice: every coordinate is a multiple of 1/2 with |v| <= 2^19, so the
